@@ -319,13 +319,30 @@ func checkC10(c *Ctx) {
 	iw := c.Method(CorePath, "ioCore", "Write")
 	if c.Anchor("R10.4", "zapcore.ioCore.Write", iw != nil) {
 		okS, okE := false, false
+		var sinkW, encC *ssa.Call
+		for _, cl := range CallsDeep(iw) {
+			var d string
+			Bound(func() {
+				if len(Args(cl)) > 0 {
+					d = Desc(Args(cl)[0])
+				}
+			})
+			if IsCallTo(cl, "(io.Writer).Write", "(go.uber.org/zap/zapcore.WriteSyncer).Write") && strings.HasSuffix(d, ".out") {
+				sinkW, _ = cl.(*ssa.Call)
+			}
+			if IsCallTo(cl, "(go.uber.org/zap/zapcore.Encoder).EncodeEntry") {
+				encC, _ = cl.(*ssa.Call)
+			}
+		}
 		for _, r := range Returns(iw) {
-			d := Desc(RetVals(r)[0])
-			atoms := AtomStrings(Guards(r))
-			if strings.HasPrefix(d, "Write(c.out,") && strings.HasSuffix(d, "#1") && containsS(atoms, d+" != nil") {
+			v := Strip(RetVals(r)[0])
+			if IsNilConst(v) {
+				continue
+			}
+			if sinkW != nil && mayCarry(v, sinkW, 0) && containsS(AtomStrings(Guards(r)), Desc(v)+" != nil") {
 				okS = true
 			}
-			if strings.HasPrefix(d, "EncodeEntry(c.enc,") && strings.HasSuffix(d, "#1") {
+			if encC != nil && mayCarry(v, encC, 0) {
 				okE = true
 			}
 		}
